@@ -49,11 +49,20 @@ def getSingleDistrict (G : MG Name) : Except Err (List Name) :=
 def indexOf? (order : List Name) (v : Name) : Except Err Nat :=
   if v ∈ order then .ok (order.takeWhile (· ≠ v)).length else .error (.internal "ValueError")
 
-/-- `p_parents(child, ordering)` (pinned code): `P(child | ordering[:ordering.index(child)])`; the carried
-estimand is ignored (defect F3) -/
-def pParents (order : List Name) (_est : Expr) (child : Name) : Except Err Expr := do
+/-- `_is_observational_marginal(estimand)` (`fix:` F3): nested sums over a plain joint `P(…)`
+(`type(estimand) is Probability and not estimand.parents`) -/
+def isObsMarginal : Expr → Bool
+  | .sum e _ => isObsMarginal e
+  | .prob none _ [] => true
+  | _ => false
+
+/-- `p_parents(child, ordering, estimand)` (after `fix:` F3): the conditional of `child` given its
+predecessors, read off the carried estimand; written `P(child | predecessors)` when the estimand is (a
+marginal of) the observational joint -/
+def pParents (order : List Name) (est : Expr) (child : Name) : Except Err Expr := do
   let i ← indexOf? order child
-  pure (pCond child (order.take i))
+  if isObsMarginal est then pure (pCond child (order.take i))
+  else div (sumSafe est (order.drop (i + 1))) (sumSafe est (order.drop i))
 
 /-- proper subset of node sets (`frozenset.__lt__`) -/
 def properSubset (a b : List Name) : Bool := subset' a b && !subset' b a
